@@ -260,6 +260,8 @@ def lift(x):
 NONE = Term.of(Atom('none'))
 TRUE = Term.of(Atom('bool', True))
 FALSE = Term.of(Atom('bool', False))
+TRUE_ATOM_KEY = TRUE.single_atom().key
+FALSE_ATOM_KEY = FALSE.single_atom().key
 
 
 def sym(name):
@@ -517,6 +519,22 @@ def mk_cmp(op, a, b):
     conditions are kept in a canonical orientation so that `a < b`, `b > a`, `not a >= b`
     have the same key.  Negative polarity is expressed with a 'not' atom."""
     a, b = lift(a), lift(b)
+    if op in ('<', '<=', '>', '>=', '==', '!='):
+        # truth values inside arithmetic (the difference of two booleans compared with 0) are the numbers 1 and 0
+        def num_(t):
+            if t.single_atom() is not None or not any(x.key in (TRUE_ATOM_KEY, FALSE_ATOM_KEY) for m in t.p for x, _ in m):
+                return t
+            out = Term()
+            for m, c in t.p.items():
+                if any(x.key == FALSE_ATOM_KEY for x, _ in m):
+                    continue
+                out = out + Term({tuple((x, e) for x, e in m if x.key != TRUE_ATOM_KEY): c})
+            return out
+        a, b = num_(a), num_(b)
+        if b.const() is not None and a.key in (TRUE.key, FALSE.key):
+            a = Term.num(1 if a.key == TRUE.key else 0)
+        if a.const() is not None and b.key in (TRUE.key, FALSE.key):
+            b = Term.num(1 if b.key == TRUE.key else 0)
     ca, cb = a.const(), b.const()
     if ca is not None and cb is not None and op in ('<', '<=', '>', '>=', '==', '!='):
         r = {'<': ca < cb, '<=': ca <= cb, '>': ca > cb, '>=': ca >= cb, '==': ca == cb, '!=': ca != cb}[op]
@@ -530,6 +548,14 @@ def mk_cmp(op, a, b):
         return FALSE if op == '==' else TRUE          # a string never equals a number
     if op in ('==', '!=') and a.key == b.key:
         return TRUE if op == '==' else FALSE
+    if op in ('==', '!=', 'is', 'is not') and a.key in (TRUE.key, FALSE.key) and b.key in (TRUE.key, FALSE.key):
+        # two truth values (a != b of booleans is their exclusive or): different keys here
+        return FALSE if op in ('==', 'is') else TRUE
+    if op in ('==', '!=') and (a.key in (TRUE.key, FALSE.key) or b.key in (TRUE.key, FALSE.key)) and (_boolean(a) and _boolean(b)):
+        # p == True is p, p == False is not p, for a proposition p
+        p_, c_ = (a, b) if b.key in (TRUE.key, FALSE.key) else (b, a)
+        same = (c_.key == TRUE.key) == (op == '==')
+        return p_ if same else mk_not(p_)
     if op in ('is', 'is not'):
         # identity with None of a known non-None constant
         if a.key == b.key:
@@ -1603,11 +1629,12 @@ def mk_sub(base, idx):
         if at.kind == 'sub':
             # (X[a:])[i] == X[a + i]   for a constant a >= 0 and an index i >= 0
             sl = at.args[1].single_atom()
-            if sl is not None and sl.kind == 'slice' and _isnone(sl.args[1]) and _isnone(sl.args[2]):
-                a0 = sl.args[0].const()
+            if sl is not None and sl.kind == 'slice' and _isnone(sl.args[2]):
+                # (whatever the stop: a loop index is a position inside the slice, or the access raises)
+                a0 = F(0) if _isnone(sl.args[0]) else sl.args[0].const()
                 if a0 is not None and a0 >= 0 and a0.denominator == 1 and idx.single_atom() is not None and \
                         idx.single_atom().kind == 'idx':
-                    return mk_sub(at.args[0], sl.args[0] + idx)
+                    return mk_sub(at.args[0], Term.num(a0) + idx)
             s2 = idx.single_atom()
             if sl is not None and sl.kind == 'slice' and _isnone(sl.args[1]) and _isnone(sl.args[2]) and s2 is not None \
                     and s2.kind == 'slice' and _isnone(s2.args[2]) and s2.args[0].const() == 0 and not _isnone(s2.args[1]) \
@@ -1709,6 +1736,9 @@ def shape_dim(arr, k):
         if lo.const() == 0 and _isnone(st):
             if _isnone(hi):
                 return full
+            if hi.const() is not None and hi.const() < 0:
+                # x[:-c]: all but the last c items
+                return mk_call('max', [full + hi, Term.num(0)])
             # a prefix of length hi: exact when hi is (shape // c) * c  (never exceeds the dimension)
             q = hi / full if False else None
             for m, c in hi.p.items():
